@@ -59,7 +59,14 @@ func (pool *TransactionsPool) AddTransaction(transaction *ledger.Transaction, br
 }
 
 func (pool *TransactionsPool) Transactions() []*ledger.Transaction {
-	return pool.transactions
+	pool.mutex.RLock()
+	defer pool.mutex.RUnlock()
+	if pool.transactions == nil {
+		return nil
+	}
+	transactions := make([]*ledger.Transaction, len(pool.transactions))
+	copy(transactions, pool.transactions)
+	return transactions
 }
 
 func (pool *TransactionsPool) Validate(timestamp int64) {
@@ -157,6 +164,10 @@ func (pool *TransactionsPool) addTransaction(transaction *ledger.Transaction) er
 	if transaction == nil {
 		return errors.New("the transaction is missing")
 	}
+	// The whole admission is one critical section: the duplicate test, the replay on the pending transactions and
+	// the append must see the same pool
+	pool.mutex.Lock()
+	defer pool.mutex.Unlock()
 	lastBlockTimestamp := pool.blocksManager.LastBlockTimestamp()
 	if lastBlockTimestamp == 0 {
 		return errors.New("the blockchain is empty")
@@ -198,8 +209,6 @@ func (pool *TransactionsPool) addTransaction(transaction *ledger.Transaction) er
 	if err = utxoManagerCopy.UpdateUtxos([]*ledger.Transaction{transaction}, nextBlockTimestamp); err != nil {
 		return fmt.Errorf("failed to update UTXOs: %w", err)
 	}
-	pool.mutex.Lock()
-	defer pool.mutex.Unlock()
 	pool.transactions = append(pool.transactions, transaction)
 	return nil
 }
